@@ -44,7 +44,7 @@ ASSUMPTIONS = [
     're-executing sampled sequences from scratch)',
 ]
 ANCHORS = ['Table.filter', 'Table.update_ids', 'Table._index_ids', 'errcheck', 'Table.merge', 'Table.concat', 'Table.collapse', 'Table.partition', 'Table.subsample', 'Table.transform']
-REQUIRED = ['histories_under_other_error_profile', 'pairwise_variants_checked', 'tables_built_from_one_matrix_object',
+REQUIRED = ['shared_text_id_probes', 'histories_under_other_error_profile', 'pairwise_variants_checked', 'tables_built_from_one_matrix_object',
             'tables_built_over_matrix_data', 'steps', 'earlier_tables_rechecked', 'refused_then_checked', 'oracle_runs', 'invariant_evaluations',
             'absent_id_probes', 'stale_id_probes', 'layout_csc_seen',
             'layout_unsorted_seen', 'empty_table_states', 'io_steps',
@@ -1035,6 +1035,50 @@ def summarize(counters, extra, tier):
             'operation instances from 6 start tables' % (p['depth'],
                                                           len(OP_NAMES)),
             'operation_instances': OP_NAMES}
+
+
+def stress(ctx):
+    """Fixed probes.  Id arrays whose memory is the same text cut
+    differently ('ab','cd','ef','gh' / 'abcd','efgh' / 'a'..'h' /
+    'abcdefgh'), used one after the other in one process on either axis:
+    anything remembered about one id array must not answer for another."""
+    r = ctx.rng('stress')
+    base = ['abcdefgh', 'éèüñøßÆç', 'S1S2S3S4']
+    for text in base:
+        cuts = [[text[i:i + w] for i in range(0, 8, w)] for w in (2, 4, 1, 8)]
+        cuts = [c for c in cuts if len(set(c)) == len(c)]
+        orders = [cuts, cuts[::-1]]
+        for order in orders:
+            tabs = []
+            for ids in order:
+                for axis in ('observation', 'sample'):
+                    n = len(ids)
+                    V = np.arange(n * 2, dtype=float).reshape(n, 2) + 1
+                    spec = gen.Spec(ids if axis == 'observation' else
+                                    ['x', 'y'], ['x', 'y'] if axis ==
+                                    'observation' else ids,
+                                    V if axis == 'observation' else V.T,
+                                    [{'k': i} for i in ids] if axis ==
+                                    'observation' else None,
+                                    None if axis == 'observation' else
+                                    [{'k': i} for i in ids])
+                    t = gen.build(ctx.biom, spec, 'dense')
+                    tabs.append((t, spec))
+            # every table answers for its own ids, also after the others
+            # were built and queried
+            for t, spec in tabs + tabs[::-1]:
+                ever = {'observation': set(spec.obs_ids),
+                        'sample': set(spec.samp_ids)}
+                desc = {'probe': 'id arrays sharing their text',
+                        'table': spec.describe()}
+                oracle(ctx, t, r, ever, desc)
+                d = snap.diff(snap.snap(t), snap.snap_spec(spec))
+                if d:
+                    raise Violation('C05/incoherent/probe', '%s; case=%r' %
+                                    ('; '.join(d), desc))
+                ctx.count('shared_text_id_probes')
+            ctx.case({'probe': 'id arrays sharing their text', 'text': text,
+                      'order': [len(c) for c in order]}, True)
 
 
 def san_indices(tier):
